@@ -145,22 +145,22 @@ Qed.
 
 (** every hop but the penultimate and the last one: exactly the embedded SCION path *)
 Lemma process_epic_other ep p :
-  is_penultimate p = false -> is_last_hop p = false ->
+  epic_checked c p = false ->
   process_epic fullq emacq c now ing ep p = epic_view (process_scion (macq fullq) c now ing p).
 Proof.
-  intros P L. unfold process_epic. rewrite P, L.
+  intros P. unfold process_epic. rewrite P.
   destruct (process_scion (macq fullq) c now ing p); reflexivity.
 Qed.
 
 Lemma process_epic_forward ep p e out d :
   process_epic fullq emacq c now ing ep p = Forward e out d ->
   process_scion (macq fullq) c now ing p = Forward e out d /\
-  (is_penultimate p || is_last_hop p = true -> epic_checks fullq emacq c now ing ep p out = EvOk).
+  (epic_checked c p = true -> epic_checks fullq emacq c now ing ep p out = EvOk).
 Proof.
   unfold process_epic.
   destruct (process_scion (macq fullq) c now ing p) as [| | |e' o' d'|rq e' o'| |] eqn:E;
     try discriminate.
-  - destruct (is_penultimate p || is_last_hop p).
+  - destruct (epic_checked c p).
     + destruct (epic_checks fullq emacq c now ing ep p o') eqn:C; try discriminate.
       intros H; injection H as <- <- <-. auto.
     + intros H; injection H as <- <- <-. split; [reflexivity | discriminate].
@@ -272,12 +272,35 @@ Proof.
       split; [exact (if_mac _ _ _ _ _ _ _ _ F) | left; exact (if_hop _ _ _ _ _ _ _ _ F)].
 Qed.
 
+(** the hop field verified last sits at [verified_index] *)
+Lemma last_verified_index p i h :
+  last_verified fullt c now ing p = Some (i, h) ->
+  nthN (p_hops p) (verified_index c p) = Some h.
+Proof.
+  unfold last_verified, verified_index. rewrite macq_total.
+  destruct (ingress_part (total mac6) c now ing p) as [s|r] eqn:IP; [|discriminate].
+  destruct (ingress_part_ok _ _ _ _ _ _ IP) as (i0 & h0 & F).
+  destruct (p_dst_ia p =? c_ia c).
+  - intros H; injection H as <- <-. rewrite andb_false_r.
+    rewrite (if_shop _ _ _ _ _ _ _ _ F). exact (if_hop _ _ _ _ _ _ _ _ F).
+  - rewrite andb_true_r.
+    destruct (xover_part (total mac6) now s) as [s1|r] eqn:X; [|discriminate].
+    intros H; injection H as <- <-.
+    apply xover_part_ok in X. rewrite (xover_cond_eff _ _ _ _ _ _ _ _ F) in X.
+    destruct (eff_xover p).
+    + destruct X as (h' & i' & Hh & Hi & -> & _ & M). cbn [s_hop].
+      assert (p_hops (s_p s) = p_hops p /\ p_curr_hf (s_p s) = p_curr_hf p) as [E1 E2].
+      { rewrite (if_pkt _ _ _ _ _ _ _ _ F). destruct (folds _ _ _); split; reflexivity. }
+      rewrite E1, E2 in Hh. exact Hh.
+    + subst s1. rewrite (if_shop _ _ _ _ _ _ _ _ F). exact (if_hop _ _ _ _ _ _ _ _ F).
+Qed.
+
 (** the oracle of the correspondence check holds on the model *)
 Lemma c13_ok_model ep p :
   c13_ok fullt emact c now ing ep p (process_epic fullt emact c now ing ep p) = true.
 Proof.
   unfold c13_ok. cbv zeta.
-  destruct (is_penultimate p || is_last_hop p) eqn:PL.
+  destruct (epic_checked c p) eqn:PL.
   - unfold process_epic. rewrite PL.
     destruct (process_scion (macq fullt) c now ing p) as [| | |e out d|rq e out| |] eqn:S;
       try reflexivity.
@@ -294,8 +317,26 @@ Proof.
     + pose proof (result_same_refl (epic_view (SlowPath rq e out))) as R.
       destruct rq as [ty code ptr| |]; cbn in *; [|exact R|exact R].
       destruct (_ && _); exact R.
-  - apply orb_false_iff in PL as [P L].
-    rewrite (process_epic_other fullt emact c now ing ep p P L). apply result_same_refl.
+  - rewrite (process_epic_other fullt emact c now ing ep p PL). apply result_same_refl.
 Qed.
 
 End Total.
+
+(** the EPIC checks are applied exactly when the hop field verified last is the penultimate
+    or the last hop field of the path *)
+Lemma epic_checked_iff c p :
+  epic_checked c p =
+  (verified_index c p + 2 =? num_hops p) || (verified_index c p + 1 =? num_hops p).
+Proof.
+  unfold epic_checked, xover_to_penultimate, verified_index, is_penultimate, is_last_hop.
+  destruct (eff_xover p) eqn:X; cbn [andb].
+  - destruct (negb (p_dst_ia p =? c_ia c)); cbn [andb]; rewrite ?andb_true_r, ?andb_false_r.
+    + unfold eff_xover, is_xover in X. apply andb_true_iff in X as [X _].
+      apply andb_true_iff in X as [X _]. apply N.ltb_lt in X.
+      assert ((p_curr_hf p + 1 =? num_hops p) = false) as -> by (apply N.eqb_neq; lia).
+      replace (p_curr_hf p + 1 + 2) with (p_curr_hf p + 3) by lia.
+      replace (p_curr_hf p + 1 + 1) with (p_curr_hf p + 2) by lia.
+      rewrite orb_false_r. apply orb_comm.
+    + now rewrite orb_false_r.
+  - rewrite andb_false_r. now rewrite orb_false_r.
+Qed.
